@@ -69,7 +69,8 @@ pub fn write(
 
     let length = len(disconnect, properties);
 
-    if length == 2 {
+    // normal disconnection without properties: the two bytes E0 00
+    if disconnect.reason_code == DisconnectReasonCode::NormalDisconnection && properties.is_none() {
         buffer.put_u8(0x00);
         return Ok(length);
     }
